@@ -228,7 +228,6 @@ func (sl *SignalLayout) verifyBeforeInsert(sig Signal, startBit int) error {
 	}
 
 	sigSize := sig.GetSize()
-	endBit := startBit + sigSize
 
 	if sigSize > sl.size {
 		return &SignalSizeError{
@@ -237,12 +236,15 @@ func (sl *SignalLayout) verifyBeforeInsert(sig Signal, startBit int) error {
 		}
 	}
 
-	if endBit > sl.size {
+	// startBit + sigSize may overflow for a huge start bit
+	if startBit > sl.size-sigSize {
 		return &SignalSizeError{
 			Size: sigSize,
 			Err:  ErrNoSpaceLeft,
 		}
 	}
+
+	endBit := startBit + sigSize
 
 	for _, tmpSig := range sl.signals {
 		tmpStartBit := tmpSig.GetRelativeStartPos()
@@ -563,23 +565,21 @@ func (sl *SignalLayout) shiftRight(sigID EntityID, amount int) int {
 
 		if sigID == tmpSig.EntityID() {
 			tmpStartBit := tmpSig.GetRelativeStartPos()
-			targetStartBit := tmpStartBit + amount
-			targetEndBit := targetStartBit + tmpSig.GetSize()
+			tmpEndBit := tmpStartBit + tmpSig.GetSize()
 
-			if targetEndBit > sl.size {
-				targetStartBit = sl.size - tmpSig.GetSize()
-			}
-
+			// the free space behind the signal bounds the shift;
+			// tmpStartBit + amount may overflow for a huge amount
+			maxShift := sl.size - tmpEndBit
 			if nextSig != nil {
-				nextStartBit := nextSig.GetRelativeStartPos()
-
-				if targetEndBit > nextStartBit {
-					targetStartBit = nextStartBit - tmpSig.GetSize()
-				}
+				maxShift = nextSig.GetRelativeStartPos() - tmpEndBit
 			}
 
-			tmpSig.setRelativeStartPos(targetStartBit)
-			perfShift = targetStartBit - tmpStartBit
+			perfShift = amount
+			if perfShift > maxShift {
+				perfShift = maxShift
+			}
+
+			tmpSig.setRelativeStartPos(tmpStartBit + perfShift)
 
 			break
 		}
